@@ -439,9 +439,14 @@ def check_C12(ctx):
     # write two layers over three keys x (strategy cycle + 9 range compactions), then retire + reopen
     lay = tlc_enumerate(ctx, 'GEN_Layout', 'GEN_Layout.cfg')
     ctx.notes['layout_behaviours_enumerated'] = len(lay)
+    # the same space with a table file of its own per layer (logs retired + reopen between the layers): kevo's flush of the
+    # active table leaves the table in place, so without that the second file holds the first layer as well
+    lay_sep = tlc_enumerate(ctx, 'GEN_Layout', 'GEN_Layout_sep.cfg')
     if ctx.quick():
         import random
-        lay = random.Random(ctx.seed).sample(lay, 900)
+        lay = random.Random(ctx.seed).sample(lay, 500) + random.Random(ctx.seed + 2).sample(lay_sep, 500)
+    else:
+        lay = lay + lay_sep
     # three layers (files) over the same keys: every layout x range compaction whose selection is not closed under overlap after
     # one pass over the files (a chain: the first file overlaps the requested range, the second only the first, the third only
     # the second), enumerated exhaustively by TLC
@@ -449,7 +454,7 @@ def check_C12(ctx):
     ctx.notes['three_layer_chain_layouts_enumerated'] = len(lay3)
     if ctx.quick():
         import random
-        lay3 = random.Random(ctx.seed + 1).sample(lay3, min(len(lay3), 700))
+        lay3 = random.Random(ctx.seed + 1).sample(lay3, min(len(lay3), 384))
     lay = lay + lay3
     nontrivial_c12(ctx, lay)
     ctx.traces += run_replays(ctx, 'C12', lay, ['-dirview'], [CLASSES[0], ('ascii-bigmem-immsync', 'ascii', {'memtable_size': 1 << 20, 'sync_mode': 2, 'compact_sec': 3600}, 1.0)][:1 if ctx.quick() else 2], 'c12lay')
